@@ -76,9 +76,15 @@ def keysOf (rows : List Val) : Option (List Val) := rows.mapM rowKey
 def textsModelled (vs : List Val) : Bool :=
   vs.all fun v => match v with | .str s => s.all (fun c => c.toNat < 128) | _ => true
 
+/-- kind of a lookup value the models of `_match` / `_vlookup` describe. A BLANK lookup value is left out: against it `key <= lookup`
+is decided by the blank object's reflected `__ge__` (true only for keys equal to 0), not by the order of numbers -/
+def lookupKind : Val → Option LKind
+  | .blank => none
+  | v => lkind v
+
 /-- `_match(lookup_value, lookup_array, match_type)` -/
 def matchFn (lookup : Val) (array : Val) (matchType : Int) : Res :=
-  match array, lkind lookup with
+  match array, lookupKind lookup with
   | .list rows, some k =>
     match keysOf rows with
     | none => .error .unmodelled
@@ -98,11 +104,37 @@ def bsLt (a b : Val) : Option Bool :=
   | .str x, .str y => some (strLt x y)
   | x, y => if lkind x == some .num && lkind y == some .num then some (decide (lnum x < lnum y)) else none
 
-/-- keys the model of the binary search describes: numbers and texts. The blank object is left out: its comparison methods are not
-those of the integer 0 (`EmptyCell() > x` is always false) -/
+/-- keys the order lemmas of the binary search speak about: numbers and texts (not the blank object, whose comparison methods are
+its own) -/
 def bsKey : Val → Bool
   | .blank => false
   | k => (lkind k).isSome
+
+/-- operands the model of the binary search describes: numbers, texts and the blank object -/
+def bsOperand : Val → Bool
+  | .blank => true
+  | k => (lkind k).isSome
+
+/-- Python's `a < b` as the loop evaluates it: the blank object answers with its own `__lt__` (on the left) or, reflected, with its
+`__gt__` = False (on the right of an int or a text; a float or a bool on the left compares with the integer value 0 itself) -/
+def pyLt (a b : Val) : Option Bool :=
+  match a, b with
+  | .blank, o => if bsOperand o then some (blankLt o) else none
+  | .int _, .blank => some false
+  | .bool _, .blank => some false
+  | .flt q, .blank => some (decide (q < 0))
+  | .str _, .blank => some false
+  | a, b => bsLt a b
+
+/-- Python's `a > b` as the loop evaluates it (`EmptyCell.__gt__` is always False; on the right the blank answers with `__lt__`) -/
+def pyGt (a b : Val) : Option Bool :=
+  match a, b with
+  | .blank, o => if bsOperand o then some false else none
+  | .int z, .blank => some (decide (0 < z))
+  | .bool t, .blank => some t
+  | .flt q, .blank => some (decide (0 < q))
+  | .str x, .blank => some (!x.isEmpty)
+  | a, b => bsLt b a
 
 /-- the `while first <= last` loop; the result is `(exact, next_smallest, next_largest)` before the two final corrections -/
 def bsLoop (keys : List Val) (v : Val) (rev : Bool) (first last ns nl : Int) : Except PyExc (Int × Int × Int) :=
@@ -111,7 +143,7 @@ def bsLoop (keys : List Val) (v : Val) (rev : Bool) (first last ns nl : Int) : E
     match keys[mid.toNat]? with
     | none => .error .indexError
     | some k =>
-      match bsLt k v, bsLt v k with
+      match pyLt k v, pyGt k v with
       | some lt, some gt =>
         let left := if rev then gt else lt
         let right := if rev then lt else gt
@@ -133,7 +165,7 @@ def binarySearch (keys : List Val) (v : Val) (rev : Bool) : Except PyExc (Int ×
     | .ok (e, ns, nl) =>
       match keys[ns.toNat]?, keys[nl.toNat]? with
       | some ks, some kl =>
-        match bsLt v ks, bsLt kl v with
+        match pyGt ks v, pyLt kl v with
         | some sGt, some lLt => .ok (e, if sGt then -1 else ns, if lLt then -1 else nl)
         | _, _ => .error .typeError
       | _, _ => .error .indexError
@@ -155,7 +187,7 @@ def xmatchFn (lookup array : Val) (matchMode searchMode : Int) : Res :=
       match keysOf rows with
       | none => .error .unmodelled
       | some keys =>
-        if !(lookup :: keys).all bsKey then .error .unmodelled
+        if !(lookup :: keys).all bsOperand then .error .unmodelled
         else
           match binarySearch keys lookup (searchMode = -2) with
           | .error e => .error e
@@ -222,7 +254,7 @@ def vlookupApprox (lookup : Val) (col : Int) : List Val → Res → Res
 def vlookupFn (lookup table : Val) (col : Int) (rangeLookup : Val) : Res :=
   match rangeLookup with
   | .bool _ | .int _ =>
-    match table, lkind lookup with
+    match table, lookupKind lookup with
     | .list rows, some _ =>
       if !textsModelled (lookup :: rows.filterMap rowKey) then .error .unmodelled
       else if truthy rangeLookup then vlookupApprox lookup col rows (.ok errNA) else vlookupExact lookup col rows
